@@ -339,7 +339,11 @@ class PrinterModel:
             tpl = describe(ex, p.state, as_pieces(ex, p.state, p.ret), ind, {"core": "core"})
             is_block = any(re.match(r"^discr\(core\) == %d$" % blk, str(z3.simplify(c)).replace("\n", " ")) for c in p.cond)
             self.nib.append((is_block, tpl))
-        if len(self.nib) != 2 or any(x[0] == "?" for _b, t in self.nib for x in t):
+        # a Block may come in two forms: with statements (rendered through to_py) and, since the repair of comment-only bodies, without
+        # (a fixed text): the form without slot is the one for the empty block
+        blocks = [t for b, t in self.nib if b]
+        if len([1 for b, _t in self.nib if not b]) != 1 or not 1 <= len(blocks) <= 2 or any(x[0] == "?" for _b, t in self.nib for x in t) or \
+                len([t for t in blocks if any(x[0] == "slot" for x in t)]) != 1:
             raise Unsupported(f"newline_if_body: {self.nib}")
         # newline_delimited: its closure appends one line per item
         cl = [f for n, f in mir.fns.items() if re.search(r"(^|::)newline_delimited::\{closure#\d+\}$", n) and len(f.args) == 2 and f.args[1][1].strip() == "&Core"]
@@ -404,8 +408,12 @@ class PrinterModel:
                 if fn in ("to_py", "operand"):
                     out.append(self.render(ch, ind + k))
                 elif fn == "newline_if_body":
-                    tp = [t for b, t in self.nib if b == (ch["k"] == "Block")][0]
-                    out.append(self._fill(tp, None, ind + k, item=ch))
+                    is_blk = ch["k"] == "Block"
+                    cands = [t for b, t in self.nib if b == is_blk]
+                    if is_blk and len(cands) == 2:
+                        empty = not any(isinstance(v, list) and v for v in ch.values())
+                        cands = [t for t in cands if any(x[0] == "slot" for x in t) != empty]
+                    out.append(self._fill(cands[0], None, ind + k, item=ch))
                 elif fn == "comma_delimited":
                     out.append(", ".join(self.render(c, ind + k) for c in ch))
                 elif fn == "newline_delimited":
